@@ -345,6 +345,13 @@ def family_inc(tier='quick'):
                         [('X', 'A'), ('X', 'B'), ('X', 'C'), ('P0', 'M'), ('P1', 'M'), ('M', 'T')], ['X'],
                         choices=[('C1', 'A', ['S', 'Q1']), ('C2', 'B', ['P0', 'P1']), ('C3', 'C', ['R0', 'R1'])],
                         incompat=two_pairs[::-1] if flip else two_pairs, label=f'inc-two-constraints-one-unavoidable-{int(flip)}'))
+    # two constraints leaving options of the same choice, their targets derived by overlapping sets of options of a
+    # second choice; a node shared by those options carries a nested choice (the upstream search for the derivers of
+    # X1 and of X2 visits the same nodes with different sets of removed edges)
+    out.append(Desc(['S', 'O1', 'O2', 'A1', 'A2', 'A3', 'P1', 'P2', 'P3', 'X1', 'X2', 'W', 'U', 'V'],
+                    [('S', 'O1'), ('S', 'O2'), ('P1', 'X1'), ('P2', 'X1'), ('P1', 'X2'), ('P1', 'W'), ('P2', 'W')], ['S'],
+                    choices=[('C1', 'O1', ['A1', 'A2', 'A3']), ('C2', 'O2', ['P1', 'P2', 'P3']), ('C9', 'W', ['U', 'V'])],
+                    incompat=[('A1', 'X1'), ('A2', 'X2')], label='inc-two-constraints-overlapping-derivers-shared-nested-choice'))
     # a node that derives the very node it is incompatible with (below an option: that option can never be feasible),
     # once more below a nested choice; the conflict has a derivation edge between its two ends
     out.append(Desc(['S', 'A', 'B', 'F', 'G', 'K', 'P', 'Q', 'R', 'T'], [('A', 'F'), ('F', 'G'), ('B', 'K'), ('P', 'R'), ('Q', 'T')], ['S'],
@@ -501,6 +508,13 @@ def family_dvmet(tier='quick'):
     out.append(Desc(base_nodes, base_edges, ['A'], choices=ch, constraints=[('LINKED', ['dl1', 'dl2', 'dl3'])],
                     dvs=[('dl1', 'B', None, ['a', 'b']), ('dl2', 'A', None, ['u', 'v', 'w', 'x']),
                          ('dl3', 'B', None, ['p', 'q', 'r'])], label='dv-linked-three-narrow-first'))
+    # "double diamond": both options derive P; P reaches two shared nodes that the first option has already walked
+    # (C1 directly, C2 through B2); each shared node carries a design variable that exists in every architecture
+    out.append(Desc(['R', 'O1', 'O2', 'A1', 'A2', 'C1', 'C2', 'P', 'B2'],
+                    [('O1', 'A1'), ('A1', 'C1'), ('O1', 'A2'), ('A2', 'C2'), ('O1', 'P'), ('P', 'C1'), ('P', 'B2'),
+                     ('B2', 'C2'), ('O2', 'P')], ['R'], choices=[('X', 'R', ['O1', 'O2'])],
+                    dvs=[('d1', 'C1', None, ['x', 'y', 'z']), ('d2', 'C2', (0.0, 1.0), None)],
+                    label='dv-double-diamond-shared-walk'))
     return out
 
 
